@@ -557,3 +557,54 @@ def _keyed_effects_of(fnode: ast.AST, p: str) -> List[Tuple[str, str, int]]:
                             for k in consts:
                                 out.append((k, t.attr, a.lineno))
     return out
+
+
+# ---- a key that is an identifier is a name only when the property is not computed ---------------------------------
+def rule_computed_flag_consulted(ctx, rep, rid: str) -> None:
+    """`o.k` and `o[k]`, `{k: 1}` and `{[k]: 1}` have the same child node - an Identifier - and differ only in the
+    `computed` flag of the parent.  A compiler branch that turns an identifier key into a name constant must look at
+    that flag, or the computed form silently means the uncomputed one."""
+    rep.rule(rid, "wherever the compiler tests that the key of a property (or the property of a member access) is an Identifier in order to use its name as a constant, the same condition (or an enclosing one) consults the node's `computed` flag: {[k]: v} and o[k] take the VALUE of k", floor=1)
+    from ..util import guards_of
+
+    schema = node_schema(ctx)
+    flagged = {c for c, fields in schema.items() if "computed" in fields}
+    if not flagged:
+        raise AnalysisError(f"{rid}: no AST node class with a `computed` field found")
+    comp = ctx.tree.class_named("Compiler")
+    n = 0
+    for m in comp.methods.values():
+        if isinstance(m.node, ast.Lambda):
+            continue
+        for t in m.own_nodes():
+            if not (isinstance(t, ast.Call) and norm(t.func) == "isinstance" and len(t.args) == 2 and norm(t.args[1]) == "Identifier" and isinstance(t.args[0], ast.Attribute) and t.args[0].attr in ("key", "property")):
+                continue
+            base = norm(t.args[0].value)
+            # is the name then used as a constant?  (`.name` of the same key read in the guarded code)
+            top = t
+            while isinstance(getattr(top, "_parent", None), (ast.BoolOp, ast.UnaryOp)):
+                top = top._parent
+            holder = getattr(top, "_parent", None)
+            if not isinstance(holder, (ast.If, ast.IfExp)) or holder.test is not top:
+                continue
+            body = holder.body if isinstance(holder.body, list) else [holder.body]
+            uses_name = any(isinstance(x, ast.Attribute) and x.attr == "name" and norm(x.value) == norm(t.args[0]) for b in body for x in ast.walk(b))
+            if not uses_name:
+                continue
+            n += 1
+            key = f"{m.qual}:{norm(t.args[0])}@{t.lineno}"
+            want = f"{base}.computed"
+            consulted = want in norm(top) or any(want in norm(g) for g, _ in guards_of(holder, m.node))
+            # an earlier `if <base>.computed: ... return/continue` or else-branch of a computed test
+            if not consulted:
+                p_ = getattr(holder, "_parent", None)
+                while p_ is not None and p_ is not m.node:
+                    if isinstance(p_, ast.If) and want in norm(p_.test):
+                        consulted = True
+                    p_ = getattr(p_, "_parent", None)
+            if consulted:
+                rep.ok(rid, key)
+            else:
+                rep.bad(rid, key, f"{m.qual} takes `{norm(t.args[0])}.name` as the property name whenever the key is an Identifier, without looking at `{want}`: the computed form (`{{[k]: v}}`, `o[k]`) then names the property 'k' instead of the value of k", f"{m.module.rel}:{t.lineno}")
+    if n < 1:
+        raise AnalysisError(f"{rid}: no identifier-key decision found in the compiler")
